@@ -134,8 +134,11 @@ def canary_text(text, fn_names):
     if isinstance(fn_names, str):
         fn_names = [fn_names]
     for fn_name in fn_names:
-        rx = re.compile(r"(fn\s+%s\b[^{;]*?\bensures\b)" % re.escape(fn_name), re.S)
+        rx = re.compile(r"(/\*@uc:%s\*/[^{;]*?\bensures\b)" % re.escape(fn_name), re.S)
         m = rx.search(text)
+        if not m:
+            rx = re.compile(r"(fn\s+%s\b[^{;]*?\bensures\b)" % re.escape(fn_name), re.S)
+            m = rx.search(text)
         if not m:
             return None
         text = text[:m.end()] + " false, " + text[m.end():]
